@@ -53,6 +53,14 @@ def gen_cases(tier, seed):
         if not cyc and rng.random() < 0.15:
             ws = [w for _, w in base["planted"]][:3] or [1]
             c["superset"] = ws + [rng.choice([1, 2]) if wt == "int" else 0.5] + [rng.choice([1, 3]) if wt == "int" else 1.5]
+        if not node and rng.random() < 0.3 and c["superset"] is None:
+            # the caller's assumption "these edges appear in an optimal solution" (explicit list, or the edges at/above a weight percentile)
+            if cyc and rng.random() < 0.5:
+                c["trusted_pct"] = rng.choice([0, 25, 50, 75])
+            else:
+                c["trusted"] = gen.jl(rng.sample(base["edges"], rng.randint(1, len(base["edges"]))))
+            if rng.random() < 0.6 and not any(f == 0 for _, f in c["scale"]):
+                e0 = rng.choice(base["edges"]); c["scale"] = [x for x in c["scale"] if models._elem(x[0]) != e0] + [[gen.jl(e0), 0]]     # a trusted edge may be switched off by scale 0
         drop = [e for e in [models._elem(x) for x in c["ignore"]] if rng.random() < 0.3]
         c["spec"] = I.spec_of(base, drop_attr=drop)
         cases.append(c)
@@ -73,6 +81,10 @@ def build_kw(case, k):
         kw["additional_ends"] = case["ends"]
     if case["superset"] is not None:
         kw["solution_weights_superset"] = case["superset"]
+    if case.get("trusted"):
+        kw["trusted_edges_for_safety"] = case["trusted"]
+    if case.get("trusted_pct") is not None:
+        kw["trusted_edges_for_safety_percentile"] = case["trusted_pct"]
     return kw
 
 
@@ -128,8 +140,18 @@ def run_case(case):
         dshow = f"edges={[(u, v, d.get('flow')) for u, v, d in G.edges(data=True)]}"
     if not demand or all(v == 0 for v in demand.values()):
         return {"viol": [], "obs": {"c07.everything_ignored_skipped": 1}, "nontrivial": False}    # outside the domain (no non-ignored weighted element)
-    desc = f"{'cyclic' if cyc else 'DAG'} mode={mode} wt={wt} k={k} {dshow} ignore={sorted(map(str, ign))} scale={sc} starts={case['starts']} ends={case['ends']} superset={case['superset']}"
-    tags = [t for t, c in (("node", mode == "node"), ("ignore", ign), ("scale", sc), ("starts/ends", case["starts"] or case["ends"]), ("superset", case["superset"] is not None), ("float", wt == "float")) if c]
+    trusted = None
+    if case.get("trusted"):
+        trusted = {models._elem(e) for e in case["trusted"]} - ignored
+    elif case.get("trusted_pct") is not None:
+        import numpy as np
+        vals = [d["flow"] for u, v, d in G.edges(data=True) if "flow" in d]
+        thr = float(np.percentile(vals, case["trusted_pct"])) if vals else 0
+        trusted = {(u, v) for u, v, d in G.edges(data=True) if "flow" in d and d["flow"] >= thr} - ignored
+    def trust_cols(cols):
+        return [[i for i, c_ in enumerate(cols) if c_.get(e, 0) > 0] for e in sorted(trusted)] if trusted else None
+    desc = f"{'cyclic' if cyc else 'DAG'} mode={mode} wt={wt} k={k} {dshow} ignore={sorted(map(str, ign))} scale={sc} starts={case['starts']} ends={case['ends']} superset={case['superset']}" + (f" trusted={sorted(trusted)}" if trusted is not None else "")
+    tags = [t for t, c in (("node", mode == "node"), ("ignore", ign), ("scale", sc), ("starts/ends", case["starts"] or case["ends"]), ("superset", case["superset"] is not None), ("float", wt == "float"), ("trusted", trusted is not None)) if c]
     tagstr = ("/" + "/".join(tags)) if tags else ""
     M.ROUTES.install(); M.ROUTES.drain(); M.TRACE.install()
     cls = "kLeastAbsErrorsCycles" if cyc else "kLeastAbsErrors"
@@ -170,6 +192,14 @@ def run_case(case):
             if not cyc:
                 cols = columns_dag(G, mode, case["starts"], case["ends"])
                 best = ref.lae_min(cols, demand, k, models.WT[wt], sc, superset=case["superset"])
+                if trusted:
+                    # the trust assumption is valid iff some optimal solution has every trusted (non-ignored) edge on one of its k paths;
+                    # only then does the statement promise the true optimum
+                    bt = ref.lae_min(cols, demand, k, models.WT[wt], sc, superset=case["superset"], cons_cols=trust_cols(cols))
+                    if bt is None or not models.num_close(float(bt), float(best)):
+                        obs["c07.trust_assumption_invalid_skipped"] += 1
+                        raise ref.RefTimeout("trust assumption does not hold")
+                    obs["c07.trusted_cases_judged"] += 1
                 obs["c07.dag_optimum_compared"] += 1
                 sample["reference"] = float(best)
                 if not models.num_close(rec_obj, float(best)):
@@ -187,6 +217,12 @@ def run_case(case):
                 B = 3
                 cols = columns_cyc(G, mode, case["starts"], case["ends"], B)
                 wit = ref.lae_min(cols, demand, k, models.WT[wt], sc)
+                if trusted:
+                    wt_ = ref.lae_min(cols, demand, k, models.WT[wt], sc, cons_cols=trust_cols(cols))
+                    if wt_ is None or not models.num_close(float(wt_), float(wit)):
+                        obs["c07.trust_assumption_invalid_skipped"] += 1
+                        raise ref.RefTimeout("trust assumption does not hold for the witness")
+                    obs["c07.trusted_cases_judged"] += 1
                 obs["c07.cyc_witness_compared"] += 1
                 sample["witness"] = float(wit)
                 if rec_obj > float(wit) + 1e-6 * max(1, abs(float(wit))):
